@@ -501,7 +501,75 @@ func GenJourney(r *vh.Rng) (line, class string) {
 		c.gone = true
 		steps = append(steps, fmt.Sprintf("c%d", i+1))
 	}
-	for it := 0; it < 200; it++ {
+	focused := r.Intn(2) == 0
+	for it := 0; focused && it < n; it++ {
+		// one call after the other: answered up to a chosen point of the journey, given up there, the rest delivered
+		start()
+		i := len(calls) - 1
+		c := calls[i]
+		if r.Intn(4) == 0 && len(calls) < n {
+			start() // a bystander that waits, is answered later or never
+		}
+		var upto int
+		switch r.Intn(7) {
+		case 0:
+			upto = 0
+		case 1:
+			upto = 1 + r.Intn(hl-1)
+		case 2:
+			upto = hl
+		case 3, 4:
+			upto = hl
+			if c.L > 1 {
+				upto = hl + 1 + r.Intn(c.L-1)
+			}
+		case 5:
+			upto = -1 // races the hand-over
+		default:
+			upto = total(c) // never gives up
+		}
+		for c.sent < upto {
+			k := upto - c.sent
+			if r.Intn(2) == 0 {
+				k = 1 + r.Intn(k)
+			}
+			c.sent += k
+			steps = append(steps, fmt.Sprintf("d%d.%d", i+1, k))
+		}
+		switch {
+		case upto == -1:
+			if r.Intn(2) == 0 && c.L > 0 {
+				k := hl + r.Intn(c.L)
+				c.sent = k
+				steps = append(steps, fmt.Sprintf("d%d.%d", i+1, k))
+			}
+			feats["gave-up-racing-hand-over"] = true
+			c.gone, c.racy, c.sent = true, true, total(c)
+			steps = append(steps, fmt.Sprintf("r%d", i+1))
+		case upto == total(c):
+			c.done = true
+		default:
+			giveUp(i)
+		}
+		if r.Intn(3) == 0 {
+			steps = append(steps, "a")
+		}
+		for c.sent < total(c) && (it < n-1 || r.Intn(3) != 0) {
+			k := total(c) - c.sent
+			if r.Intn(2) == 0 {
+				k = 1 + r.Intn(k)
+			}
+			c.sent += k
+			steps = append(steps, fmt.Sprintf("d%d.%d", i+1, k))
+		}
+		if c.sent > 0 && c.sent < total(c) {
+			cur = i
+		}
+		if r.Intn(3) == 0 {
+			steps = append(steps, "a")
+		}
+	}
+	for it := 0; !focused && it < 200; it++ {
 		var waiting, unbegun []int
 		for i, c := range calls {
 			if !c.gone && !c.done {
@@ -514,35 +582,49 @@ func GenJourney(r *vh.Rng) (line, class string) {
 		if len(calls) == n && cur < 0 && (len(unbegun) == 0 || r.Intn(4) == 0) {
 			break
 		}
+		curWaits := cur >= 0 && !calls[cur].gone && !calls[cur].done
 		switch p := r.Intn(100); {
-		case p < 22 && len(calls) < n:
+		case p < 18 && len(calls) < n:
 			start()
-		case p < 55 && cur >= 0:
-			piece(cur)
-		case p < 62 && cur >= 0 && !calls[cur].gone && !calls[cur].done:
+		case p < 36 && curWaits:
 			// the caller of the frame that is on its way gives up right here
 			giveUp(cur)
-		case p < 66 && cur >= 0 && !calls[cur].gone && !calls[cur].done:
+		case p < 42 && curWaits:
 			c := calls[cur]
 			feats["gave-up-racing-hand-over"] = true
 			c.gone, c.racy, c.sent = true, true, total(c)
 			steps = append(steps, fmt.Sprintf("r%d", cur+1))
 			cur = -1
-		case p < 74 && len(waiting) > 0:
+		case p < 64 && cur >= 0:
+			piece(cur)
+		case p < 64 && cur >= 0 && !calls[cur].gone && !calls[cur].done:
+			// the caller of the frame that is on its way gives up right here
+			giveUp(cur)
+		case p < 69 && cur >= 0 && !calls[cur].gone && !calls[cur].done:
+			c := calls[cur]
+			feats["gave-up-racing-hand-over"] = true
+			c.gone, c.racy, c.sent = true, true, total(c)
+			steps = append(steps, fmt.Sprintf("r%d", cur+1))
+			cur = -1
+		case p < 73 && len(waiting) > 0:
 			giveUp(waiting[r.Intn(len(waiting))])
-		case p < 90 && cur < 0 && len(unbegun) > 0:
+		case p < 91 && cur < 0 && len(unbegun) > 0:
 			piece(unbegun[r.Intn(len(unbegun))])
-		case p < 93 && cur < 0:
+		case p < 93 && cur < 0 && len(calls) > 0:
 			steps = append(steps, fmt.Sprintf("v%d", r.Intn(40)))
 			feats["event"] = true
-		case p < 96 && cur < 0:
+		case p < 95 && cur < 0 && len(calls) > 0:
 			steps = append(steps, fmt.Sprintf("x%d", jrLen(r)))
 			feats["unknown-id"] = true
-		case p < 100:
+		case p >= 95 && len(calls) > 0:
 			steps = append(steps, "a")
 		}
 	}
-	switch e := r.Intn(8); {
+	e := r.Intn(8)
+	if cur >= 0 && r.Intn(2) == 0 {
+		e = r.Intn(2) // the connection ends in the middle of a frame
+	}
+	switch {
 	case e == 0:
 		steps = append(steps, "k")
 		feats["conn-close"] = true
